@@ -209,7 +209,7 @@ Qed.
 (* ---- the image invariant over histories INCLUDING Session Modification, inside the guard [mod_ok]
    (Proofs/ModWorld.v; per-step lemmas in Proofs/ModImage.v).  [guarded_hist burst w es] checks every event against the
    state it meets: events other than Session Modification must satisfy [ev_ok] as before; a Session Modification must
-   satisfy the executable guard [mod_ok (agent before) (association before) message]:
+   satisfy the executable guard [mod_ok burst (state before) association message]:
      - unknown SEID: always inside (rejected, nothing changes);
      - a parse loop stops (rejected before anything is written): inside when the failing IE is a Create PDR / FAR /
        QER, or an Update IE before which no Update had hit a stored rule (only appends happened), and the stored
@@ -220,14 +220,16 @@ Qed.
        pairwise distinct when the message writes PDRs (created ids are fresh); the FARs (QERs) written by the message
        have pairwise distinct ids; MarkSessionQer re-run on the session's lists and on the message's QER list changes
        nothing (no relabel - true of a session already marked at establishment); every Remove PDR / FAR / QER id
-       resolves; creations and removals do not come together.
+       resolves; when creations and removals come in one message, the rule lists the session has BETWEEN the add batch
+       and the delete batch (old and new rules together) have pairwise distinct keys, distinct from the other
+       sessions' keys (a Create whose key equals that of a rule removed by the same message would be installed and
+       then deleted).
    Inside: any number of Update FARs (Outer Header Creation, end-marker flag, buffering, unknown ids skipped), CP
    F-SEID change, Remove PDR/FAR/QER of existing rules, Create PDR/FAR/QER, Update QER of application-level QERs,
    Update PDR that changes precedence / FAR id / QER list / value fields but not the match key - and their mixtures.
    Outside (the three refuting shapes above and what the proof does not reach): a rejected modification whose failing
    IE comes after an in-place update or whose Remove id is unknown (F12), key-changing Update PDR (F13), relabelling
-   and Update of the session-level QER (F13b), the same FAR / QER id written twice in one message, Create together
-   with Remove. *)
+   and Update of the session-level QER (F13b), the same FAR / QER id written twice in one message. *)
 From UPF Require Import Proofs.ModImage Proofs.ModWorld.
 Theorem C03_image_invariant_mod_partial : forall burst es w w',
   (forall x, In x (states burst w es) -> envelope burst x /\ alloc_backed x) ->
@@ -243,16 +245,19 @@ Print Assumptions C03_mod_guard_subsumes.
 (* per step, accepted: under the guard the modification is ACCEPTED, the stored session is replaced by [s'], the
    tables are the old ones with the message's batch applied, and whatever else the tables hold ([rest], disjoint by
    the envelope) the image of the session before becomes the image of the session after *)
-Theorem C03_mod_image_step : forall burst a c seid cpf cp cf cq up uf uq rp rf rq s0 w6 a' c' o,
+Theorem C03_mod_image_step : forall burst a c seid cpf cp cf cq up uf uq rp rf rq mid s0 w6 a' c' o,
   find_session seid (c_sessions c) = Some s0 ->
   mod_loops a c s0 seid cp cf cq up uf uq = (w6, 0%nat) ->
-  late_ok a c seid s0 w6 cp cf cq up uf uq rp rf rq = true ->
+  late_ok a c seid s0 w6 cp cf cq up uf uq rp rf rq mid = true ->
   handle_mod burst a c seid cpf cp cf cq up uf uq rp rf rq = Done (a', c', o) ->
   exists s', c_sessions c' = replace_session s' (c_sessions c) /\ s_lseid s' = s_lseid s0 /\
     a_tables a' = apply_cmds (o_cmds o) (a_tables a) /\ o_reply o = Some (RMod (new_rseid cpf s0) CAUSE_OK) /\
     (forall rest, is_image (a_tables a) (session_cmds burst s0 ++ rest) ->
        NoDup (map tg (session_cmds burst s0)) -> disjoint_from (session_cmds burst s0) rest ->
        NoDup (map tg (session_cmds burst s')) -> disjoint_from (session_cmds burst s') rest ->
+       ((nil_b cp && nil_b cf && nil_b cq) || (nil_b rp && nil_b rf && nil_b rq) = false -> mid = true ->
+        NoDup (map tg (add_cmds burst (view (w_p w6)) (view (w_f w6)) (view (w_q w6)))) /\
+        disjoint_from (add_cmds burst (view (w_p w6)) (view (w_f w6)) (view (w_q w6))) rest) ->
        is_image (a_tables a') (session_cmds burst s' ++ rest)).
 Proof. exact mod_late_image. Qed.
 Print Assumptions C03_mod_image_step.
@@ -274,11 +279,12 @@ Print Assumptions C03_mod_parse_reject_step.
    (QER 2 becomes the session-level one); a handover-style modification with three Update FARs (FAR 2: new tunnel with
    the end-marker flag, FAR 99: unknown, skipped, FAR 1); a modification creating PDR 3 / FAR 3; a CP F-SEID change; a
    modification with an Update PDR (new precedence, same key) and an Update QER (application QER 1); a modification
-   removing PDR 3 / FAR 3; a modification rejected in the parse phase (unreadable Create FAR); the deletion.  Every
+   that removes PDR 3 / FAR 3 and creates PDR 4 / FAR 4 in one message; a modification rejected in the parse phase
+   (unreadable Create FAR); the deletion.  Every
    hypothesis of the theorem holds of this history (every state inside the envelope, every event inside the guard), all
    modifications but the eighth event are accepted, the end marker goes to the OLD tunnel (100 -> 8, TEID 6), and
-   after the seventh event the FAR table holds FAR 2 with the new tunnel (9, TEID 7), PDR 2 has the new precedence
-   and the application QER entries the new rate *)
+   after the seventh event the FAR table holds FAR 2 with the new tunnel (9, TEID 7) and FAR 4 instead of FAR 3, PDR 2
+   has the new precedence, PDR 4 replaces PDR 3 and the application QER entries have the new rate *)
 Example C03_image_invariant_mod_nonvacuous :
   let burst := fun _ _ _ : N => 0 in
   let w0 := World (Agent (Cfg 100 200 true) None (Gen 0 []) 0 no_tables) [] in
@@ -293,6 +299,8 @@ Example C03_image_invariant_mod_nonvacuous :
   let ufar99 := FarIE (IOk 99) (IOk 2) IErr (IOk [FDst (IOk 1)]) in
   let pdr3 := PdrIE (IOk 3) (IOk 20) (IOk [PSrc (IOk 1); PUeip (IOk (2, Some 51))]) false (IOk 3) true [1; 2] in
   let far3 := FarIE (IOk 3) (IOk 2) (IOk [FDst (IOk 0); FOhc (IOk (16, Some 8))]) IErr in
+  let pdr4 := PdrIE (IOk 4) (IOk 20) (IOk [PSrc (IOk 1); PUeip (IOk (2, Some 52))]) false (IOk 4) true [1; 2] in
+  let far4 := FarIE (IOk 4) (IOk 2) (IOk [FDst (IOk 0); FOhc (IOk (17, Some 8))]) IErr in
   let upd2 := PdrIE (IOk 2) (IOk 30) (IOk [PSrc (IOk 1); PUeip (IOk (2, Some 50))]) false (IOk 2) true [1; 2] in
   let uqer1 := QerIE (IOk 1) 9 0 0 2000 2000 0 0 in
   let es := [WMsg 0 true (MSetup (Some (IOk 7)) (Some (IOk 1))) [];
@@ -301,7 +309,7 @@ Example C03_image_invariant_mod_nonvacuous :
              WMsg 0 true (MMod 5 None [pdr3] [far3] [] [] [] [] [] [] []) [];
              WMsg 0 true (MMod 5 (Some (IOk (78, Some 3))) [] [] [] [] [] [] [] [] []) [];
              WMsg 0 true (MMod 5 None [] [] [] [upd2] [] [uqer1] [] [] []) [];
-             WMsg 0 true (MMod 5 None [] [] [] [] [] [] [IOk 3] [IOk 3] []) [];
+             WMsg 0 true (MMod 5 None [pdr4] [far4] [] [] [] [] [IOk 3] [IOk 3] []) [];
              WMsg 0 true (MMod 5 None [] [FarIE IErr IErr IErr IErr] [] [] [] [] [] [] []) [];
              WMsg 0 true (MDel 5) []] in
   (forall x, In x (states burst w0 es) -> envelope burst x /\ alloc_backed x) /\
@@ -312,14 +320,15 @@ Example C03_image_invariant_mod_nonvacuous :
      (Some (RMod 78 CAUSE_OK), []); (Some (RMod 78 CAUSE_OK), []); (Some (RMod 78 CAUSE_REJ), []); (Some (RDel 78 CAUSE_OK), [])] /\
   (exists w7, wrun burst w0 (firstn 7 es) = Done w7 /\ image_ok burst w7 /\
      a_tables (w_agent w7) =
-       Tables [([2; 0; 0; 0; 50; 0; 0; 0; 255; 0; 0; 0; 4294967295; 0; 0; 0], [0; 4294967265; 2; 5; 0; 1; 2]);
+       Tables [([2; 0; 0; 0; 52; 0; 0; 0; 255; 0; 0; 0; 4294967295; 0; 0; 0], [0; 4294967275; 4; 5; 0; 1; 4]);
+               ([2; 0; 0; 0; 50; 0; 0; 0; 255; 0; 0; 0; 4294967295; 0; 0; 0], [0; 4294967265; 2; 5; 0; 1; 2]);
                ([1; 100; 11; 0; 0; 0; 0; 0; 255; 4294967295; 4294967295; 0; 0; 0; 0; 0], [1; 4294967285; 1; 5; 0; 1; 1])]
-              [([1; 5], [0; 1; 0; 200; 0; 0; 0]); ([2; 5], [1; 0; 1; 100; 9; 7; 2152])]
+              [([4; 5], [1; 0; 1; 100; 8; 17; 2152]); ([1; 5], [0; 1; 0; 200; 0; 0; 0]); ([2; 5], [1; 0; 1; 100; 9; 7; 2152])]
               [([2; 1; 5], [0; 1; 250000; 0; 0; 0; 9]); ([1; 1; 5], [0; 1; 250000; 0; 0; 0; 9])]
               [([2; 5], [0; 1; 625000; 0; 0; 0]); ([1; 5], [0; 1; 625000; 0; 0; 0])]) /\
   (exists w9, wrun burst w0 es = Done w9 /\ image_ok burst w9 /\ a_tables (w_agent w9) = no_tables).
 Proof.
-  intros burst w0 pdr1 pdr2 far1 far2 qer1 qer2 ufar2 ufar1 ufar99 pdr3 far3 upd2 uqer1 es.
+  intros burst w0 pdr1 pdr2 far1 far2 qer1 qer2 ufar2 ufar1 ufar99 pdr3 far3 pdr4 far4 upd2 uqer1 es.
   assert (forall x, In x (states burst w0 es) -> envelope burst x /\ alloc_backed x) as Henv
     by (apply states_ok_b; vm_compute; reflexivity).
   split; [exact Henv|]. split; [vm_compute; reflexivity|]. split; [vm_compute; reflexivity|]. split; [apply image_empty|].
